@@ -7,7 +7,9 @@
    actually decomposed (two independent runs `eigh`, `eigh'` where two calls are compared);
    the harness checks these hypotheses on every recorded LAPACK call. *)
 From Coq Require Import Reals ZArith List Permutation.
-From PV Require Import Num NumR Model_diag Proofs_diag Model_diag_session Proofs_diag_session.
+From PV Require Import Num NumR Model_diag Proofs_diag Proofs_diag_inst Proofs_diag_more Proofs_diag_angle
+  Model_diag_session Proofs_diag_session Model_diag_fse_session Proofs_diag_fse_session.
+From PV.gen Require Import Gen_diag.
 Import ListNotations.
 Open Scope R_scope.
 
@@ -183,6 +185,257 @@ Example C13_nonvacuous :
   axes_flipped I3 ((1, 0, 0), (0, -1, 0), (0, 0, -1)).
 Proof. exact nonvacuous_diag. Qed.
 
+(* ---- when P, G, R reach 1; exchange of the two axes of the coaxial index ---- *)
+(* P = 1 iff the eigenvalues are (0, 0, n) iff all axes of the chosen kind are pairwise parallel
+   (cross product zero), and then any two of them are equal up to sign *)
+Theorem C13_pgr_point_iff : forall (eigvalsh : S3 -> V3) os r,
+  os <> [] -> Forall unit_rows os ->
+  vals_spec (scatter os r) (eigvalsh (scatter os r)) ->
+  let '(P, G, Rn) := symmetry_pgr eigvalsh os r in
+  (P = 1 <-> eigvalsh (scatter os r) = (0, 0, INR (length os))) /\
+  (P = 1 <-> ForallOrdPairs parallel (map (rowv r) os)) /\
+  (P = 1 -> G = 0 /\ Rn = 0 /\
+            forall o o', In o os -> In o' os -> rowv r o = rowv r o' \/ rowv r o = neg3 (rowv r o')).
+Proof. exact pgr_point_iff. Qed.
+
+(* G = 1 iff the eigenvalues are (0, n/2, n/2): coplanar axes (det S = 0), isotropic in the plane *)
+Theorem C13_pgr_girdle_iff : forall (eigvalsh : S3 -> V3) os r,
+  os <> [] -> Forall unit_rows os ->
+  vals_spec (scatter os r) (eigvalsh (scatter os r)) ->
+  let '(P, G, Rn) := symmetry_pgr eigvalsh os r in
+  (G = 1 <-> eigvalsh (scatter os r) = (0, INR (length os) / 2, INR (length os) / 2)) /\
+  (G = 1 -> P = 0 /\ Rn = 0 /\ det6 (scatter os r) = 0).
+Proof. exact pgr_girdle_iff. Qed.
+
+(* R = 1 iff the three eigenvalues coincide iff the scatter matrix is (n/3) I *)
+Theorem C13_pgr_random_iff : forall (eigvalsh : S3 -> V3) os r,
+  os <> [] -> Forall unit_rows os ->
+  vals_spec (scatter os r) (eigvalsh (scatter os r)) ->
+  let '(P, G, Rn) := symmetry_pgr eigvalsh os r in
+  (Rn = 1 <-> eigvalsh (scatter os r) = (INR (length os) / 3, INR (length os) / 3, INR (length os) / 3)) /\
+  (Rn = 1 <-> scatter os r = iso6 (INR (length os) / 3)) /\
+  (Rn = 1 -> P = 0 /\ G = 0).
+Proof. exact pgr_random_iff. Qed.
+
+(* R = 0 iff all axes of the chosen kind lie in ONE plane (are orthogonal to a common unit vector); the normal
+   is the first eigenvector of any orthonormal eigen-decomposition `e` of the scatter matrix (e.g. LAPACK's) *)
+Theorem C13_pgr_coplanar_iff : forall (eigvalsh : S3 -> V3) os r (e : EV),
+  os <> [] -> Forall unit_rows os ->
+  vals_spec (scatter os r) (eigvalsh (scatter os r)) -> eig_spec (scatter os r) e ->
+  let '(P, G, Rn) := symmetry_pgr eigvalsh os r in
+  (Rn = 0 <-> exists u : V3, dot3 u u = 1 /\ Forall (fun o => dot3 (rowv r o) u = 0) os) /\
+  (Rn = 0 -> Forall (fun o => dot3 (rowv r o) (fst (fst (snd e))) = 0) os).
+Proof. exact pgr_coplanar_iff. Qed.
+
+(* the coaxial index is NOT symmetric in its axes: BA(axis2, axis1) = 1 - BA(axis1, axis2), BA(axis, axis) = 1/2 *)
+Theorem C13_coaxial_swap : forall (eigvalsh : S3 -> V3) os r1 r2,
+  os <> [] -> Forall unit_rows os ->
+  vals_spec (scatter os r1) (eigvalsh (scatter os r1)) ->
+  vals_spec (scatter os r2) (eigvalsh (scatter os r2)) ->
+  anisotropic (eigvalsh (scatter os r1)) -> anisotropic (eigvalsh (scatter os r2)) ->
+  coaxial_index eigvalsh os r2 r1 = 1 - coaxial_index eigvalsh os r1 r2 /\
+  coaxial_index eigvalsh os r1 r1 = 1 / 2.
+Proof. exact coaxial_swap. Qed.
+
+(* ---- finite strain of rotations, stretches, and of any F given by a singular value decomposition ---- *)
+Theorem C13_fse_rotation_zero : forall (eigh : S3 -> EV) (Q : M3), orthogonal Q ->
+  vals_spec (left_cauchy_green Q) (fst (eigh (left_cauchy_green Q))) ->
+  fst (finite_strain eigh Q) = 0.
+Proof. exact fse_rotation_zero. Qed.
+
+Theorem C13_fse_svd_value : forall (eigh : S3 -> EV) (Q1 Q2 : M3) s1 s2 s3,
+  orthogonal Q1 -> orthogonal Q2 -> 0 <= s1 -> s1 <= s2 -> s2 <= s3 ->
+  let Fm := mmul (mmul Q1 (diag3 s1 s2 s3)) Q2 in
+  vals_spec (left_cauchy_green Fm) (fst (eigh (left_cauchy_green Fm))) ->
+  fst (eigh (left_cauchy_green Fm)) = (s1 * s1, s2 * s2, s3 * s3) /\
+  fst (finite_strain eigh Fm) = s3 - 1.
+Proof. exact fse_svd_value. Qed.
+
+Theorem C13_fse_diag_value : forall (eigh : S3 -> EV) a b c, 0 <= a -> a <= b -> b <= c ->
+  vals_spec (left_cauchy_green (diag3 a b c)) (fst (eigh (left_cauchy_green (diag3 a b c)))) ->
+  fst (finite_strain eigh (diag3 a b c)) = c - 1.
+Proof. exact fse_diag_value. Qed.
+
+Example C13_more_nonvacuous :
+  orthogonal I3 /\ (0 <= 1 /\ 1 <= 2 /\ 2 <= 3) /\
+  vals_spec (left_cauchy_green (diag3 1 2 3)) (1 * 1, 2 * 2, 3 * 3) /\
+  vals_spec (left_cauchy_green I3) (1, 1, 1) /\
+  parallel (1, 0, 0) (-1, 0, 0) /\ ForallOrdPairs parallel (map (rowv 0) [I3; I3]).
+Proof. exact nonvacuous_more. Qed.
+
+(* ---- smallest_angle (numba kernel): generated = model; range, errors, sign invariance, value ---- *)
+Theorem C13_gen_smallest_angle_is_model : forall (v a p : arr R),
+  @k_smallest_angle NumR v a = @smallest_angle NumR (vec_at v 0) (vec_at a 0) None /\
+  @k_smallest_angle_plane NumR v a p = @smallest_angle NumR (vec_at v 0) (vec_at a 0) (Some (vec_at p 0)).
+Proof. exact smallest_angle_insts. Qed.
+
+Theorem C13_smallest_angle_range : forall (v a : V3) plane x,
+  @smallest_angle NumR v a plane = Ok x -> 0 <= x <= 90.
+Proof. exact smallest_angle_range. Qed.
+
+(* ZeroDivisionError exactly when the (projected) vector or the axis vanishes; no other error *)
+Theorem C13_smallest_angle_error : forall (v a : V3) plane,
+  let w := match plane with Some p => @project_out NumR v p | None => v end in
+  (@smallest_angle NumR v a plane = Err DivZero <-> (w = (0, 0, 0) \/ a = (0, 0, 0))) /\
+  (forall e, @smallest_angle NumR v a plane = Err e -> e = DivZero).
+Proof. exact smallest_angle_error. Qed.
+
+(* the axis is bidirectional; so are the vector and the plane normal *)
+Theorem C13_smallest_angle_sign : forall (v a : V3) plane,
+  @smallest_angle NumR v (neg3 a) plane = @smallest_angle NumR v a plane /\
+  @smallest_angle NumR (neg3 v) a plane = @smallest_angle NumR v a plane /\
+  (forall p, plane = Some p -> @smallest_angle NumR v a (Some (neg3 p)) = @smallest_angle NumR v a plane).
+Proof. exact smallest_angle_sign. Qed.
+
+(* the value: the angle in [0, 90] degrees whose cosine is |v.a| / (|v| |a|) *)
+Theorem C13_smallest_angle_value : forall (v a : V3) x,
+  @smallest_angle_core NumR v a = Ok x ->
+  0 <= x <= 90 /\ cos (x * (PI / 180)) = Rabs (cosang v a).
+Proof. exact smallest_angle_core_cos. Qed.
+
+Example C13_smallest_angle_nonvacuous :
+  @smallest_angle NumR (1, 0, 0) (0, 1, 0) None = Ok 90 /\
+  @smallest_angle NumR (1, 0, 0) (-1, 0, 0) None = Ok 0 /\
+  @smallest_angle NumR (0, 0, 0) (1, 0, 0) None = Err DivZero /\
+  @smallest_angle NumR (0, 0, 1) (1, 0, 0) (Some (0, 0, 1)) = Err DivZero.
+Proof. exact nonvacuous_angle. Qed.
+
+(* ---- tie T: the definitions REGENERATED FROM THE SOURCE on every run (gen/Gen_diag.v) ----
+   gen_scatter n r / gen_pgr n / gen_coaxial n / gen_bingham n are the generated
+   k_scatter_matrix_n{n}_r{r} / k_symmetry_pgr_n{n} / k_coaxial_index_n{n} / k_bingham_average_n{n}
+   (n = 1, 2, 3 grains); k_finite_strain, k_angle_fse_simpleshear are generated as well.  LAPACK is a
+   function PARAMETER of the generated code (any `eg` from 3x3 arrays to eigenvalues [and eigenvector matrix], 3x3 row-major in);
+   `ev_lower eg` / `eh_lower eg` / `eh_full eg` are the model-level oracles it induces (eigenvalues =
+   the three entries returned, eigenvectors = the COLUMNS of the returned matrix; argument = the
+   array with S in the lower triangle and zeros above, resp. the symmetric array of S).
+   `on_axis axis f` = Err ValueError unless axis is the code of "a", "b", "c" (0, 1, 2 -> row). *)
+Theorem C13_gen_scatter_is_model : forall n r (O : arr R), small n -> (r < 3)%nat ->
+  gen_scatter n r O = lower_arr (@scatter NumR (grains_arr n O) r).
+Proof. exact gen_scatter_is_model. Qed.
+
+Theorem C13_gen_symmetry_pgr_is_model : forall n (eg : arr R -> arr R) axis (O : arr R), small n ->
+  gen_pgr n eg axis O = on_axis axis (symmetry_pgr (ev_lower eg) (grains_arr n O)).
+Proof. exact gen_pgr_is_model. Qed.
+
+Theorem C13_gen_coaxial_index_is_model : forall n (eg : arr R -> arr R) a1 a2 (O : arr R), small n ->
+  gen_coaxial n eg a1 a2 O = on_axes a1 a2 (coaxial_index (ev_lower eg) (grains_arr n O)).
+Proof. exact gen_coaxial_is_model. Qed.
+
+Theorem C13_gen_bingham_average_is_model : forall n (eg : arr R -> arr R * arr R) axis (O : arr R), small n ->
+  gen_bingham n eg axis O =
+  on_axis axis (fun r => mk_arr 0 (flat3 (bingham_average (eh_lower eg) (grains_arr n O) r))).
+Proof. exact gen_bingham_is_model. Qed.
+
+Theorem C13_gen_finite_strain_is_model : forall (eg : arr R -> arr R * arr R) (Fa : arr R),
+  @k_finite_strain NumR eg Fa =
+  let '(v, ax) := finite_strain (eh_full eg) (mat_at Fa 0) in (v, mk_arr 0 (flat3 ax)).
+Proof. exact finite_strain_inst. Qed.
+
+Theorem C13_gen_angle_fse_simpleshear_is_model : forall s : R,
+  @k_angle_fse_simpleshear NumR s = @angle_fse_simpleshear NumR s.
+Proof. exact angle_fse_simpleshear_inst. Qed.
+
+(* the calls WITHOUT axis / driver arguments: axis "a"; axis1 "b", axis2 "a"; any driver *)
+Theorem C13_gen_defaults : forall (ev : arr R -> arr R) (eh : arr R -> arr R * arr R) (O Fa : arr R),
+  Ok (@k_symmetry_pgr_n1_default NumR ev O) = gen_pgr 1 ev 0 O /\
+  @k_coaxial_index_n1_default NumR ev O = gen_coaxial 1 ev 1 0 O /\
+  Ok (@k_bingham_average_n1_default NumR eh O) = gen_bingham 1 eh 0 O /\
+  @k_finite_strain_driver NumR eh Fa = @k_finite_strain NumR eh Fa.
+Proof. exact gen_defaults. Qed.
+
+(* axis specifiers: every string other than "a", "b", "c" is rejected by all three functions (both
+   arguments of coaxial_index); "a", "b", "c" select rows 0, 1, 2 *)
+Theorem C13_gen_axis_letters : forall n (ev : arr R -> arr R) (eh : arr R -> arr R * arr R) axis axis' (O : arr R),
+  small n ->
+  (axis <> 0%Z -> axis <> 1%Z -> axis <> 2%Z ->
+     gen_pgr n ev axis O = Err ValueError /\ gen_bingham n eh axis O = Err ValueError /\
+     gen_coaxial n ev axis axis' O = Err ValueError /\
+     (axis' = 0%Z \/ axis' = 1%Z \/ axis' = 2%Z -> gen_coaxial n ev axis' axis O = Err ValueError)) /\
+  (forall r, (r < 3)%nat ->
+     gen_pgr n ev (Z.of_nat r) O = Ok (symmetry_pgr (ev_lower ev) (grains_arr n O) r) /\
+     gen_bingham n eh (Z.of_nat r) O = Ok (mk_arr 0 (flat3 (bingham_average (eh_lower eh) (grains_arr n O) r)))).
+Proof. exact gen_axis_letters. Qed.
+
+(* the clauses of the property, stated about the GENERATED code *)
+Theorem C13_gen_pgr_sum_one_and_range : forall n (eg : arr R -> arr R) axis (O : arr R) P G Rn, small n ->
+  let os := grains_arr n O in
+  Forall unit_rows os ->
+  (forall r, row_of_axis axis = Ok r -> vals_spec (scatter os r) (ev_lower eg (scatter os r))) ->
+  gen_pgr n eg axis O = Ok (P, G, Rn) ->
+  P + G + Rn = 1 /\ in01 P /\ in01 G /\ in01 Rn.
+Proof. exact gen_pgr_sum_range. Qed.
+
+Theorem C13_gen_pgr_invariant : forall n (eg eg' : arr R -> arr R) axis (O O' : arr R), small n ->
+  let os := grains_arr n O in let os' := grains_arr n O' in
+  equivalent_texture os os' ->
+  (forall r, row_of_axis axis = Ok r -> vals_spec (scatter os r) (ev_lower eg (scatter os r))) ->
+  (forall r, row_of_axis axis = Ok r -> vals_spec (scatter os' r) (ev_lower eg' (scatter os' r))) ->
+  gen_pgr n eg' axis O' = gen_pgr n eg axis O.
+Proof. exact gen_pgr_invariant. Qed.
+
+Theorem C13_gen_coaxial_range_invariant : forall n (eg eg' : arr R -> arr R) a1 a2 (O O' : arr R) ba, small n ->
+  let os := grains_arr n O in let os' := grains_arr n O' in
+  Forall unit_rows os ->
+  (forall r, row_of_axis a1 = Ok r \/ row_of_axis a2 = Ok r ->
+     vals_spec (scatter os r) (ev_lower eg (scatter os r)) /\ anisotropic (ev_lower eg (scatter os r))) ->
+  gen_coaxial n eg a1 a2 O = Ok ba ->
+  in01 ba /\
+  (equivalent_texture os os' ->
+   (forall r, row_of_axis a1 = Ok r \/ row_of_axis a2 = Ok r ->
+      vals_spec (scatter os' r) (ev_lower eg' (scatter os' r))) ->
+   gen_coaxial n eg' a1 a2 O' = Ok ba).
+Proof. exact gen_coaxial_range_invariant. Qed.
+
+Theorem C13_gen_bingham_principal : forall n (eg : arr R -> arr R * arr R) axis (O b : arr R), small n ->
+  let os := grains_arr n O in
+  (forall r, row_of_axis axis = Ok r -> eig_spec (scatter os r) (eh_lower eg (scatter os r))) ->
+  gen_bingham n eg axis O = Ok b ->
+  exists r, row_of_axis axis = Ok r /\
+    let S := scatter os r in let v := vec_at b 0 in
+    b = mk_arr 0 (flat3 v) /\ dot3 v v = 1 /\
+    v = last_vec (eh_lower eg S) /\ symv S v = scale3 (last_val (eh_lower eg S)) v /\
+    (forall x, charpoly S x = 0 -> x <= last_val (eh_lower eg S)) /\
+    (forall u : V3, dot3 u u = 1 -> qf S u <= qf S v).
+Proof. exact gen_bingham_principal. Qed.
+
+Theorem C13_gen_bingham_corotates : forall n (eg eg' : arr R -> arr R * arr R) axis (Q : M3) (O O' b b' : arr R),
+  small n ->
+  let os := grains_arr n O in let os' := grains_arr n O' in
+  orthogonal Q -> os' = map (rotate_frame Q) os ->
+  (forall r, row_of_axis axis = Ok r ->
+     eig_spec (scatter os r) (eh_lower eg (scatter os r)) /\
+     eig_spec (scatter os' r) (eh_lower eg' (scatter os' r)) /\
+     simple_top (eh_lower eg (scatter os r))) ->
+  gen_bingham n eg axis O = Ok b -> gen_bingham n eg' axis O' = Ok b' ->
+  up_to_sign (vec_at b' 0) (mulv Q (vec_at b 0)).
+Proof. exact gen_bingham_corotates. Qed.
+
+Theorem C13_gen_fse_value : forall (eg : arr R -> arr R * arr R) (Fa : arr R),
+  let Fm := mat_at Fa 0 in let B := left_cauchy_green Fm in
+  eig_spec B (eh_full eg B) ->
+  let l := last_val (eh_full eg B) in
+  let ax := vec_at (snd (@k_finite_strain NumR eg Fa)) 0 in
+  fst (@k_finite_strain NumR eg Fa) = sqrt l - 1 /\
+  snd (@k_finite_strain NumR eg Fa) = mk_arr 0 (flat3 ax) /\
+  charpoly B l = 0 /\ (forall x, charpoly B x = 0 -> x <= l) /\
+  symv B ax = scale3 l ax /\ dot3 ax ax = 1 /\
+  (forall u : V3, dot3 u u = 1 -> dot3 (mulv (transpose Fm) u) (mulv (transpose Fm) u) <= l) /\
+  (invertible Fm -> 0 < l).
+Proof. exact gen_fse_value. Qed.
+
+Example C13_gen_nonvacuous :
+  small 1 /\ small 2 /\ small 3 /\
+  grains_arr 1 (mk_arr 0 (flat9 I3)) = [I3] /\ Forall unit_rows (grains_arr 1 (mk_arr 0 (flat9 I3))) /\
+  (forall r, row_of_axis 0 = Ok r ->
+     eig_spec (scatter [I3] r) (eh_lower ex_eg (scatter [I3] r)) /\ simple_top (eh_lower ex_eg (scatter [I3] r))) /\
+  (forall r, row_of_axis 0 = Ok r \/ row_of_axis 0 = Ok r ->
+     vals_spec (scatter [I3] r) (ev_lower ex_ev (scatter [I3] r)) /\ anisotropic (ev_lower ex_ev (scatter [I3] r))) /\
+  equivalent_texture [I3] (map (rotate_frame I3) [I3]) /\
+  (exists v, gen_pgr 1 ex_ev 0 (mk_arr 0 (flat9 I3)) = Ok v) /\
+  (exists b, gen_bingham 1 ex_eg 0 (mk_arr 0 (flat9 I3)) = Ok b) /\
+  (exists c, gen_coaxial 1 ex_ev 0 0 (mk_arr 0 (flat9 I3)) = Ok c).
+Proof. exact nonvacuous_gen. Qed.
+
 (* ---- call sequences on live objects that are modified in place (Model_diag_session) ----
    `run false` is the source as it is; `pure_run` / `pure_out` evaluate the ONE-CALL model
    functions above on the contents the argument has at the time of the call.  Any numeric
@@ -280,3 +533,67 @@ Example C13_session_nonvacuous :
   inplace_symmetry (buf st 0) 0 (SFlip 0 [((1, -1, -1) : V3)]) /\
   same_call st (store_after st [SFill 0 [Iyx]; SPgr 0 1; SFill 0 [I3]]) (SPgr 0 2) (SPgr 0 2).
 Proof. exact nonvacuous_session. Qed.
+
+(* ---- finite_strain call sequences on live deformation-gradient objects updated in place
+        (Model_diag_fse_session): `frun false` is the source as it is, `fpure_run` evaluates the one-call
+        function on the contents the argument has at the time of the call ---- *)
+Theorem C13_fse_session_call_history_independent : forall (F : Num) (eigh : @sym3 F -> @eigres F)
+    (st st' : @fstore F) (c c' : @fcache F) (h h' : list (@fop F)) (b b' : nat),
+  frun eigh false (st, c) h = fpure_run eigh st h /\
+  frun eigh false (st, c) (h ++ [FStrain b]) =
+    frun eigh false (st, c) h ++ fpure_out eigh (fstore_after st h) (FStrain b) /\
+  fstore_after st h = fstore_after st (filter is_update h) /\
+  (fobj (fstore_after st h) b = fobj (fstore_after st' h') b' ->
+   fpure_out eigh (fstore_after st h) (FStrain b) = fpure_out eigh (fstore_after st' h') (FStrain b')).
+Proof. exact @fse_session_call_pure. Qed.
+
+(* [call; F[...] = F @ Q; call] on one object: LAPACK is handed the SAME matrix, the second call
+   returns exactly what the first did *)
+Theorem C13_fse_session_right_rotation : forall (eigh : S3 -> EV) (st : @fstore NumR) (c : @fcache NumR) b,
+  (b < length st)%nat -> forall Q : M3, orthogonal Q ->
+  let B := left_cauchy_green (fobj st b) in
+  exists v ax, frun eigh false (st, c) [FStrain b; FRight b Q; FStrain b] = [OFse B v ax; OFse B v ax] /\
+               (v, ax) = finite_strain eigh (fobj st b).
+Proof. exact fse_session_right_rotation. Qed.
+
+(* [call; F[...] = Q @ F; call]: LAPACK gets Q B Q^T; same value; axis co-rotated up to sign *)
+Theorem C13_fse_session_left_rotation : forall (eigh : S3 -> EV) (st : @fstore NumR) (c : @fcache NumR) b,
+  (b < length st)%nat -> forall Q : M3, orthogonal Q ->
+  let B := left_cauchy_green (fobj st b) in
+  eig_spec B (eigh B) -> eig_spec (congr Q B) (eigh (congr Q B)) ->
+  exists v ax ax', frun eigh false (st, c) [FStrain b; FLeft b Q; FStrain b] =
+                     [OFse B v ax; OFse (congr Q B) v ax'] /\
+                   (v, ax) = finite_strain eigh (fobj st b) /\
+                   (simple_top (eigh B) -> up_to_sign ax' (mulv Q ax)).
+Proof. exact fse_session_left_rotation. Qed.
+
+(* F *= k (k > 0): every principal stretch is multiplied by k *)
+Theorem C13_fse_scale_value : forall (eigh eigh' : S3 -> EV) (Fm : M3) (k : R), 0 < k ->
+  vals_spec (left_cauchy_green Fm) (fst (eigh (left_cauchy_green Fm))) ->
+  vals_spec (left_cauchy_green (@scale_m3 NumR k Fm)) (fst (eigh' (left_cauchy_green (@scale_m3 NumR k Fm)))) ->
+  fst (finite_strain eigh' (@scale_m3 NumR k Fm)) + 1 = k * (fst (finite_strain eigh Fm) + 1).
+Proof. exact fse_scale_value. Qed.
+
+(* F[...] = F.T: the value is unchanged (F^T F and F F^T have the same eigenvalues) *)
+Theorem C13_fse_transpose_value : forall (eigh eigh' : S3 -> EV) (Fm : M3),
+  vals_spec (left_cauchy_green Fm) (fst (eigh (left_cauchy_green Fm))) ->
+  vals_spec (left_cauchy_green (transpose Fm)) (fst (eigh' (left_cauchy_green (transpose Fm)))) ->
+  fst (finite_strain eigh' (transpose Fm)) = fst (finite_strain eigh Fm).
+Proof. exact fse_transpose_value. Qed.
+
+(* remembering F.F^T per object identity without invalidation: [call; overwrite; call] hands LAPACK the OLD matrix *)
+Theorem C13_fse_session_memo_refuted :
+  exists (st : @fstore NumR) (h : list (@fop NumR)),
+    forall (eigh : S3 -> EV),
+      lcgs_of (frun eigh true (st, []) h) <> lcgs_of (fpure_run eigh st h) /\
+      lcgs_of (frun eigh false (st, []) h) = lcgs_of (fpure_run eigh st h).
+Proof. exact fse_memo_refuted. Qed.
+
+Example C13_fse_session_nonvacuous :
+  let st : @fstore NumR := [F2] in
+  (0 < length st)%nat /\ orthogonal Iyx /\
+  eig_spec (left_cauchy_green (fobj st 0)) ex_eig_F2 /\ simple_top ex_eig_F2 /\
+  eig_spec (congr Iyx (left_cauchy_green (fobj st 0))) ex_eig_F2_swapped /\
+  vals_spec (left_cauchy_green (fobj st 0)) (fst ex_eig_F2) /\
+  fobj (fstore_after st [FSet 0 I3; FStrain 0; FSet 0 F2]) 0 = fobj st 0.
+Proof. exact nonvacuous_fse_session. Qed.
